@@ -12,8 +12,12 @@
 
 /* ---- 8-value group: unpack8(pack8(v, w), w) == v & mask(w), buffer of EXACTLY w bytes -------- */
 void h_pack8_roundtrip(void) {
-  uint32_t v[8], out[8];
-  for (int i = 0; i < 8; i++) { v[i] = nondet_u32(); out[i] = nondet_u32(); }
+  /* scalars in0..in7 / width: picked up from the trace by replay/direct/bitpack_roundtrip.c */
+  int width = CQV_W;
+  uint32_t in0 = nondet_u32(), in1 = nondet_u32(), in2 = nondet_u32(), in3 = nondet_u32();
+  uint32_t in4 = nondet_u32(), in5 = nondet_u32(), in6 = nondet_u32(), in7 = nondet_u32();
+  uint32_t v[8] = {in0, in1, in2, in3, in4, in5, in6, in7}, out[8];
+  for (int i = 0; i < 8; i++) out[i] = nondet_u32();
   uint8_t *buf = malloc(CQV_W);          /* exact size: any access beyond w bytes is a violation */
   __CPROVER_assume(buf != NULL);
   for (int i = 0; i < CQV_W; i++) buf[i] = nondet_u8();   /* stale content must not leak through */
@@ -130,29 +134,60 @@ void h_zigzag(void) {
 }
 
 /* ---- bit writer -> bit reader ------------------------------------------------------------------
- * Arbitrary writer/reader alignment is modelled by a nondeterministic prefix of pre bits (0..31),
- * then the value under test (k bits, 0..32), flush, and the same reads. */
+ * An arbitrary reachable writer/reader alignment is produced by two nondeterministic prefix writes
+ * (0..32 bits each: the buffered bit count before the write under test is anything in 0..55 that the
+ * API can reach), then the value under test (k bits, 0..32), flush, and the same reads. */
+#ifndef CQV_RW_NB_MAX
+#define CQV_RW_NB_MAX 32
+#endif
 void h_bitrw(void) {
   uint8_t *buf = malloc(16);
   __CPROVER_assume(buf != NULL);
   carquet_bit_writer_t w;
   carquet_bit_reader_t r;
-  uint32_t pv = nondet_u32(), v = nondet_u32();
-  int pre = nondet_int(), k = nondet_int();
-  __CPROVER_assume(pre >= 0 && pre <= 32 && k >= 0 && k <= 32);
+  uint32_t pa = nondet_u32(), pb = nondet_u32(), v = nondet_u32();
+  int na = nondet_int(), nb = nondet_int(), k = nondet_int();
+  __CPROVER_assume(na >= 0 && na <= 32 && nb >= 0 && nb <= CQV_RW_NB_MAX && k >= 0 && k <= 32);
   carquet_bit_writer_init(&w, buf, 16);
-  carquet_bit_writer_write_bits(&w, pv, pre);
+  carquet_bit_writer_write_bits(&w, pa, na);
+  carquet_bit_writer_write_bits(&w, pb, nb);
   carquet_bit_writer_write_bits(&w, v, k);
   carquet_bit_writer_flush(&w);
   size_t nbytes = carquet_bit_writer_bytes_written(&w);
-  __CPROVER_assert(nbytes == (size_t)((pre + k + 7) >> 3), "writer reports ceil(bits/8) bytes after flush");
+  __CPROVER_assert(nbytes == (size_t)((na + nb + k + 7) >> 3), "writer reports ceil(bits/8) bytes after flush");
   carquet_bit_reader_init(&r, buf, nbytes);
-  uint32_t gp = carquet_bit_reader_read_bits(&r, pre);
+  uint32_t ga = carquet_bit_reader_read_bits(&r, na);
+  uint32_t gb = carquet_bit_reader_read_bits(&r, nb);
   uint32_t gv = carquet_bit_reader_read_bits(&r, k);
-  __CPROVER_assert(gp == (pv & SPEC_BP_MASK32(pre)), "prefix bits read back");
+  __CPROVER_assert(ga == (pa & SPEC_BP_MASK32(na)), "first prefix read back");
+  __CPROVER_assert(gb == (pb & SPEC_BP_MASK32(nb)), "second prefix read back");
   __CPROVER_assert(gv == (v & SPEC_BP_MASK32(k)), "read_bits(k) after write_bits(v,k)+flush returns v & mask(k)");
-  if (k == 32 && pre == 7) CQV_CANARY("32-bit value at odd alignment");
+  if (k == 32 && na + nb == 7) CQV_CANARY("32-bit value at odd alignment");
+#if CQV_RW_NB_MAX >= 23
+  if (na + nb == 55) CQV_CANARY("55 bits buffered before the write under test");
+#endif
   CQV_CANARY("bit reader/writer harness end");
+}
+
+/* C08 side of the bit reader: any data, any length, three reads of 0..32 bits and a single bit:
+ * no undefined behaviour, nothing read outside data[0..size) */
+void h_bitreader_any(void) {
+  size_t n = nondet_size_t();
+  __CPROVER_assume(n <= CQV_MAXBUF);
+  uint8_t *data = malloc(n);
+  __CPROVER_assume(data != NULL);
+  carquet_bit_reader_t r;
+  int k1 = nondet_int(), k2 = nondet_int(), k3 = nondet_int();
+  __CPROVER_assume(k1 >= 0 && k1 <= 32 && k2 >= 0 && k2 <= 32 && k3 >= 0 && k3 <= 32);
+  carquet_bit_reader_init(&r, data, n);
+  (void)carquet_bit_reader_read_bits(&r, k1);
+  (void)carquet_bit_reader_read_bits(&r, k2);
+  (void)carquet_bit_reader_read_bits(&r, k3);
+  int b = carquet_bit_reader_read_bit(&r);
+  __CPROVER_assert(b == -1 || b == 0 || b == 1, "read_bit returns a bit or -1");
+  __CPROVER_assert(r.byte_pos <= n, "reader position stays inside the data");
+  if (b == -1) CQV_CANARY("reader can hit the end");
+  CQV_CANARY("bit reader any-data harness end");
 }
 
 /* 64-bit two-call form */
